@@ -262,7 +262,8 @@ def model_line(case):
     k = case['kind']
     if k == 'esc':
         return [proto.line(Atom('C18'), Atom('esc'), Atom('py'), B(case['q']), case['s']),
-                proto.line(Atom('C18'), Atom('esc'), Atom('c'), B(case['q']), case['s'])]
+                proto.line(Atom('C18'), Atom('esc'), Atom('c'), B(case['q']), case['s']),
+                proto.line(Atom('C18'), Atom('unesc'), spec_escape(case['s'], case['q']))]
     if k == 'unesc':
         return [proto.line(Atom('C18'), Atom('unesc'), case['s'])]
     if k == 'op':
@@ -303,7 +304,8 @@ def real_answers(case, M):
             b = [Atom('b' + bs.hex()), Atom(str(len(bs)))]
         else:
             b = Atom('err')
-        return [a, b]
+        u = outcome(lambda: M['py'](spec_escape(case['s'], case['q'])).unescape())
+        return [a, b, u[2] if u[0] == 'ok' else Atom('err')]
     if k == 'unesc':
         r = outcome(lambda: M['py'](case['s']).unescape())
         return [r[2] if r[0] == 'ok' else Atom('err')]
